@@ -14,7 +14,7 @@ class C24(SchedCheck):
         obs, raw = self.native(runner, case)
         if obs is None: return f"canary input failed natively: {raw}"
         col = Collect()
-        info, edges = obs
+        info, edges = obs[0], obs[1][0]
         if "C24" == "C22": bad = edges + [(("InstructionIndex", [1]), ("InstructionIndex", [0]), [("StableOrdering", [])])]
         else: bad = [e for e in edges if not (e[0][0] == "InstructionIndex" and e[1][0] == "InstructionIndex")]
         oracle("C24", col, info, bad)
